@@ -1,14 +1,17 @@
 package c08
 
 import (
+	"crypto/sha256"
 	"encoding/binary"
 	"fmt"
+	"math"
 	"reflect"
 	"sort"
 	"strings"
 
 	"github.com/golang/protobuf/proto"
 
+	"github.com/xuperchain/xupercore/bcs/ledger/xledger/ledger"
 	pb "github.com/xuperchain/xupercore/bcs/ledger/xledger/xldgpb"
 
 	"verif/core"
@@ -30,9 +33,14 @@ const (
 	fixID       // Blockid recomputed over the edited header
 	fixMerkle   // TxCount, MerkleTree, MerkleRoot recomputed over the edited body
 	fixMerkleID // both
+	// PoW seam only: the nonce searched again until the recomputed id meets the
+	// target of the base block (what a miner does), so that the proof of work
+	// is no reason to refuse the mutant
+	fixMine       // nonce searched, Blockid recomputed
+	fixMerkleMine // TxCount, MerkleTree, MerkleRoot recomputed, then mined
 )
 
-var fixName = map[int]string{fixNone: "raw", fixID: "id", fixMerkle: "merkle", fixMerkleID: "merkle+id"}
+var fixName = map[int]string{fixNone: "raw", fixID: "id", fixMerkle: "merkle", fixMerkleID: "merkle+id", fixMine: "mined", fixMerkleMine: "merkle+mined"}
 
 type mutant struct {
 	id     string // symbolic, stable: replay looks it up
@@ -44,6 +52,9 @@ type mutant struct {
 	fix    int
 	apply  func(b *pb.InternalBlock)
 	post   func(b *pb.InternalBlock) // after the recomputation (re-signing)
+	// ledgerOnly: not put to single's CheckMinerMatch (body + MerkleTree treatments: the header is untouched and
+	// single does not look at the body, which the raw body mutants already show)
+	ledgerOnly bool
 }
 
 // field classification of InternalBlock (top-level names)
@@ -107,8 +118,11 @@ func intOps() (names []string, fns []func(int64) int64) {
 		func(x int64) int64 { return x - 1 },
 		func(x int64) int64 { return 0 },
 		func(x int64) int64 {
-			if x == 0 {
+			switch x {
+			case 0:
 				return -1
+			case math.MinInt32, math.MinInt64: // has no negation (a nonce found by the PoW miner's first guess): not left to wrap onto itself
+				return 1
 			}
 			return -x
 		},
@@ -136,8 +150,30 @@ func stripIdx(path string) string {
 type walker struct {
 	dense        bool // every bit of every header byte string
 	denseSig     bool // every bit of the block signature
+	pow          bool // mutants for the PoW seam: also the re-mined variants, no MerkleTree treatments
 	out          []*mutant
+	bodyMuts     []bodyMut // every body mutation, for the MerkleTree treatments
 	unclassified map[string]bool
+}
+
+// bodyMut is one edit of the ordered transaction list (delta = change of the
+// number of transactions).
+type bodyMut struct {
+	id, what string
+	delta    int
+	apply    func(b *pb.InternalBlock)
+}
+
+// headerFixes: the consistent recomputations a header / signer mutant is offered
+// with. At the PoW seam "id recomputed, nonce kept" is replaced by "mined again":
+// with the old nonce the new id meets the target or not by chance (about one in
+// two for the easy target), which decides nothing about the signature and would
+// make the verdict depend on the random parts of the base block.
+func (w *walker) headerFixes() []int {
+	if w.pow {
+		return []int{fixNone, fixMine}
+	}
+	return []int{fixNone, fixID}
 }
 
 func (w *walker) emitHeader(path, op string, apply func(b *pb.InternalBlock)) {
@@ -151,10 +187,13 @@ func (w *walker) emitHeader(path, op string, apply func(b *pb.InternalBlock)) {
 		w.out = append(w.out, &mutant{id: "hdr|" + path + "|" + op + "|raw", class: "blockid", key: "wrong_blockid_accepted", what: "Blockid edited",
 			why: "the id is not the hash of the header", expect: mustRefuseVerifyOnly, fix: fixNone, apply: apply})
 	case hashedTop[top]:
-		for _, fx := range []int{fixNone, fixID} {
+		for _, fx := range w.headerFixes() {
 			why := "a hashed header field was altered, the id no longer matches"
-			if fx == fixID {
+			switch fx {
+			case fixID:
 				why = "a hashed header field was altered and the id recomputed: the proposer's signature no longer matches"
+			case fixMine:
+				why = "a hashed header field was altered and the block mined again: the proposer's signature no longer matches"
 			}
 			w.out = append(w.out, &mutant{id: "hdr|" + path + "|" + op + "|" + fixName[fx], class: "header_hashed", key: "altered_header_field_accepted:" + kp,
 				what: "hashed header field " + path + " edited (" + op + ")", why: why, expect: mustRefuse, fix: fx, apply: apply})
@@ -427,8 +466,13 @@ func (w *walker) shift(group, name string, apply func(b *pb.InternalBlock)) {
 // body: the ordered transaction list.
 func (w *walker) body(base *pb.InternalBlock, foreign *pb.Transaction) {
 	n := len(base.Transactions)
-	add := func(id, key, what string, apply func(b *pb.InternalBlock)) {
-		for _, fx := range []int{fixNone, fixMerkle, fixMerkleID} {
+	fixes := []int{fixNone, fixMerkle, fixMerkleID}
+	if w.pow { // see headerFixes
+		fixes = []int{fixNone, fixMerkle, fixMerkleMine}
+	}
+	addD := func(id, key, what string, delta int, apply func(b *pb.InternalBlock)) {
+		w.bodyMuts = append(w.bodyMuts, bodyMut{id: id, what: what, delta: delta, apply: apply})
+		for _, fx := range fixes {
 			exp := mustRefuseVerifyOnly
 			why := "the merkle root is not the root of this transaction list"
 			switch fx {
@@ -438,18 +482,21 @@ func (w *walker) body(base *pb.InternalBlock, foreign *pb.Transaction) {
 			case fixMerkleID:
 				exp = mustRefuse
 				why = "merkle root and id were recomputed for the edited list: the proposer's signature no longer matches"
+			case fixMerkleMine:
+				exp = mustRefuse
+				why = "merkle root recomputed for the edited list and the block mined again: the proposer's signature no longer matches"
 			}
 			w.out = append(w.out, &mutant{id: "tx|" + id + "|" + fixName[fx], class: "body", key: key, what: what, why: why, expect: exp, fix: fx, apply: apply})
 		}
 	}
 	for i := 0; i < n; i++ {
 		i := i
-		add(fmt.Sprintf("drop|%d", i), "tx_dropped_accepted", fmt.Sprintf("transaction %d dropped", i), func(b *pb.InternalBlock) {
+		addD(fmt.Sprintf("drop|%d", i), "tx_dropped_accepted", fmt.Sprintf("transaction %d dropped", i), -1, func(b *pb.InternalBlock) {
 			b.Transactions = append(append([]*pb.Transaction{}, b.Transactions[:i]...), b.Transactions[i+1:]...)
 		})
 		for j := i + 1; j < n; j++ {
 			j := j
-			add(fmt.Sprintf("swap|%d,%d", i, j), "tx_reordered_accepted", fmt.Sprintf("transactions %d and %d swapped", i, j), func(b *pb.InternalBlock) {
+			addD(fmt.Sprintf("swap|%d,%d", i, j), "tx_reordered_accepted", fmt.Sprintf("transactions %d and %d swapped", i, j), 0, func(b *pb.InternalBlock) {
 				b.Transactions[i], b.Transactions[j] = b.Transactions[j], b.Transactions[i]
 			})
 		}
@@ -462,29 +509,29 @@ func (w *walker) body(base *pb.InternalBlock, foreign *pb.Transaction) {
 			if i == n-1 && j == n {
 				key = "duplicated_last_tx_accepted"
 			}
-			add(fmt.Sprintf("dup|%d@%d", i, j), key, fmt.Sprintf("copy of transaction %d inserted at position %d", i, j), func(b *pb.InternalBlock) {
+			addD(fmt.Sprintf("dup|%d@%d", i, j), key, fmt.Sprintf("copy of transaction %d inserted at position %d", i, j), 1, func(b *pb.InternalBlock) {
 				c := world.CloneTx(b.Transactions[i])
 				l := append([]*pb.Transaction{}, b.Transactions[:j]...)
 				l = append(l, c)
 				b.Transactions = append(l, b.Transactions[j:]...)
 			})
 		}
-		add(fmt.Sprintf("replace|%d", i), "tx_replaced_accepted", fmt.Sprintf("transaction %d replaced by a foreign one", i), func(b *pb.InternalBlock) {
+		addD(fmt.Sprintf("replace|%d", i), "tx_replaced_accepted", fmt.Sprintf("transaction %d replaced by a foreign one", i), 0, func(b *pb.InternalBlock) {
 			b.Transactions[i] = world.CloneTx(foreign)
 		})
-		add(fmt.Sprintf("txid.flip|%d", i), "tx_id_altered_accepted", fmt.Sprintf("txid of transaction %d: one bit flipped", i), func(b *pb.InternalBlock) {
+		addD(fmt.Sprintf("txid.flip|%d", i), "tx_id_altered_accepted", fmt.Sprintf("txid of transaction %d: one bit flipped", i), 0, func(b *pb.InternalBlock) {
 			b.Transactions[i].Txid[len(b.Transactions[i].Txid)-1] ^= 1
 		})
-		add(fmt.Sprintf("txid.append|%d", i), "tx_id_altered_accepted", fmt.Sprintf("txid of transaction %d: byte appended", i), func(b *pb.InternalBlock) {
+		addD(fmt.Sprintf("txid.append|%d", i), "tx_id_altered_accepted", fmt.Sprintf("txid of transaction %d: byte appended", i), 0, func(b *pb.InternalBlock) {
 			b.Transactions[i].Txid = append(b.Transactions[i].Txid, 0)
 		})
-		add(fmt.Sprintf("txid.droplast|%d", i), "tx_id_altered_accepted", fmt.Sprintf("txid of transaction %d: last byte dropped", i), func(b *pb.InternalBlock) {
+		addD(fmt.Sprintf("txid.droplast|%d", i), "tx_id_altered_accepted", fmt.Sprintf("txid of transaction %d: last byte dropped", i), 0, func(b *pb.InternalBlock) {
 			b.Transactions[i].Txid = b.Transactions[i].Txid[:len(b.Transactions[i].Txid)-1]
 		})
 	}
 	for j := 0; j <= n; j++ {
 		j := j
-		add(fmt.Sprintf("foreign@%d", j), "tx_added_accepted", fmt.Sprintf("foreign transaction inserted at position %d", j), func(b *pb.InternalBlock) {
+		addD(fmt.Sprintf("foreign@%d", j), "tx_added_accepted", fmt.Sprintf("foreign transaction inserted at position %d", j), 1, func(b *pb.InternalBlock) {
 			l := append([]*pb.Transaction{}, b.Transactions[:j]...)
 			l = append(l, world.CloneTx(foreign))
 			b.Transactions = append(l, b.Transactions[j:]...)
@@ -492,7 +539,7 @@ func (w *walker) body(base *pb.InternalBlock, foreign *pb.Transaction) {
 	}
 	for k := 2; k <= n; k++ {
 		k := k
-		add(fmt.Sprintf("tail|%d", k), "duplicated_tail_txs_accepted", fmt.Sprintf("copies of the last %d transactions appended", k), func(b *pb.InternalBlock) {
+		addD(fmt.Sprintf("tail|%d", k), "duplicated_tail_txs_accepted", fmt.Sprintf("copies of the last %d transactions appended", k), k, func(b *pb.InternalBlock) {
 			for _, t := range b.Transactions[len(b.Transactions)-k:] {
 				b.Transactions = append(b.Transactions, world.CloneTx(t))
 			}
@@ -500,7 +547,7 @@ func (w *walker) body(base *pb.InternalBlock, foreign *pb.Transaction) {
 	}
 	for k := 2; k <= 8 && n > 0; k++ {
 		k := k
-		add(fmt.Sprintf("repeatlast|%d", k), "duplicated_tail_txs_accepted", fmt.Sprintf("%d copies of the last transaction appended", k), func(b *pb.InternalBlock) {
+		addD(fmt.Sprintf("repeatlast|%d", k), "duplicated_tail_txs_accepted", fmt.Sprintf("%d copies of the last transaction appended", k), k, func(b *pb.InternalBlock) {
 			last := b.Transactions[len(b.Transactions)-1]
 			for x := 0; x < k; x++ {
 				b.Transactions = append(b.Transactions, world.CloneTx(last))
@@ -508,7 +555,7 @@ func (w *walker) body(base *pb.InternalBlock, foreign *pb.Transaction) {
 		})
 	}
 	if n > 0 {
-		add("clear", "tx_dropped_accepted", "all transactions dropped", func(b *pb.InternalBlock) { b.Transactions = nil })
+		addD("clear", "tx_dropped_accepted", "all transactions dropped", -n, func(b *pb.InternalBlock) { b.Transactions = nil })
 	}
 }
 
@@ -535,10 +582,10 @@ func (w *walker) signer(base *pb.InternalBlock) {
 	}
 	for _, v := range []variant{{"sign", false, false}, {"sign+pubkey", true, false}, {"sign+proposer", false, true}, {"sign+pubkey+proposer", true, true}} {
 		v := v
-		for _, fx := range []int{fixNone, fixID} {
+		for _, fx := range w.headerFixes() {
 			exp := mustRefuse
 			why := "the block is signed by a key that is not the stated proposer's"
-			if v.pubkey && v.proposer && fx == fixID {
+			if v.pubkey && v.proposer && fx != fixNone {
 				exp = mustRefuseCombined
 				why = "the block is a well-formed block of another proposer: the consensus must refuse it"
 			}
@@ -554,6 +601,129 @@ func (w *walker) signer(base *pb.InternalBlock) {
 				}, post: resign})
 		}
 	}
+	// the stated proposer's own, well-formed signature -- of something else
+	mk := world.Keys[miner]
+	for _, o := range []struct {
+		name, what string
+		msg        func(b *pb.InternalBlock) []byte
+	}{
+		{"parent_id", "the id of the parent block", func(b *pb.InternalBlock) []byte { return b.PreHash }},
+		{"flipped_id", "the block id with one bit flipped", func(b *pb.InternalBlock) []byte {
+			x := append([]byte{}, b.Blockid...)
+			x[0] ^= 1
+			return x
+		}},
+		{"other_message", "another 32-byte message", func(b *pb.InternalBlock) []byte {
+			h := sha256.Sum256([]byte("c08: not a block id"))
+			return h[:]
+		}},
+	} {
+		o := o
+		w.out = append(w.out, &mutant{id: "sig|own_key_over|" + o.name, class: "signature_other_content", key: "signature_over_other_content_accepted",
+			what: "block signature replaced by the proposer's signature over " + o.what, why: "the signature does not verify over the id",
+			expect: mustRefuse, fix: fixNone, apply: func(b *pb.InternalBlock) {
+				s, err := world.Crypto.SignECDSA(mk.Priv, o.msg(b))
+				if err != nil {
+					panic(err)
+				}
+				b.Sign = s
+			}})
+	}
+}
+
+func nextPow2(n int) int {
+	p := 1
+	for p < n {
+		p *= 2
+	}
+	return p
+}
+
+func log2(p int) int {
+	d := 0
+	for ; p > 1; p /= 2 {
+		d++
+	}
+	return d
+}
+
+// trees: COORDINATED edits of the body and of the MerkleTree field. The tree
+// travels with the block, is not covered by the id and is not what binds the
+// body (the hashed MerkleRoot is): whatever a relayer puts into it, a body that
+// is not under the header root has to be refused. Every body mutation (header
+// untouched) is offered with each treatment of the shipped tree:
+//
+//	dropped     MerkleTree = nil
+//	rebuilt     the honest tree of the NEW body (its last node is not the header root)
+//	patched:k   the k lowest levels (k=1: the leaf slots only) are those of the new
+//	            body, the levels above are the honest inner nodes of the base block
+//	            (when the shape is unchanged; else those of the new body) and the
+//	            last node is the header root; k = 1 .. depth of the tree
+//	filled      a tree of the right size with the header root in every slot
+//
+// ("untouched" is the raw body mutant of body()).
+func (w *walker) trees(base *pb.InternalBlock) {
+	n := len(base.Transactions)
+	for _, bm := range w.bodyMuts {
+		bm := bm
+		n2 := n + bm.delta
+		emit := func(name, cls string, op func(honest, fresh [][]byte, root []byte) [][]byte) {
+			w.out = append(w.out, &mutant{id: "tx|" + bm.id + "|tree=" + name, class: "body_tree:" + cls, key: "body_change_accepted_with_doctored_merkle_tree:" + cls,
+				what: bm.what + "; MerkleTree field " + name, why: "the merkle root of the header is not the root of this transaction list, whatever the (unhashed) MerkleTree field shipped with the block says",
+				expect: mustRefuseVerifyOnly, fix: fixNone, ledgerOnly: true, apply: func(b *pb.InternalBlock) {
+					honest := b.MerkleTree
+					bm.apply(b)
+					fresh := ledger.MakeMerkleTree(b.Transactions)
+					for i := range fresh { // no aliasing of the txids
+						fresh[i] = append([]byte(nil), fresh[i]...)
+					}
+					b.MerkleTree = op(honest, fresh, append([]byte{}, b.MerkleRoot...))
+				}})
+		}
+		emit("dropped", "dropped", func(honest, fresh [][]byte, root []byte) [][]byte { return nil })
+		if n2 <= 0 {
+			continue
+		}
+		emit("rebuilt", "rebuilt_for_new_body", func(honest, fresh [][]byte, root []byte) [][]byte { return fresh })
+		depth := log2(nextPow2(n2))
+		sameShape := nextPow2(n2) == nextPow2(n)
+		for k := 1; k <= depth; k++ {
+			k := k
+			if !sameShape && k < depth { // no honest inner nodes of this shape: every k gives the same tree
+				continue
+			}
+			cls := "lower_levels_patched"
+			switch {
+			case k == 1:
+				cls = "leaves_patched"
+			case k == depth:
+				cls = "all_but_root_patched"
+			}
+			emit(fmt.Sprintf("patched:%d", k), cls, func(honest, fresh [][]byte, root []byte) [][]byte {
+				if len(fresh) == 0 {
+					return nil
+				}
+				lo, width := 0, (len(fresh)+1)/2
+				for lvl := 0; width >= 1; lvl++ {
+					if lvl >= k && len(honest) == len(fresh) {
+						for i := lo; i < lo+width; i++ {
+							fresh[i] = append([]byte(nil), honest[i]...)
+						}
+					}
+					lo += width
+					width /= 2
+				}
+				fresh[len(fresh)-1] = root
+				return fresh
+			})
+		}
+		emit("filled", "filled_with_root", func(honest, fresh [][]byte, root []byte) [][]byte {
+			for i := range fresh {
+				fresh[i] = append([]byte{}, root...)
+			}
+			return fresh
+		})
+	}
 }
 
 // mutants lists every single mutation of one base block.
@@ -561,8 +731,13 @@ func (w *walker) signer(base *pb.InternalBlock) {
 // one-transaction bases (header edits do not depend on the body), and for the
 // block signature on every base in the thorough tier / on the bases without
 // justify and failed-tx map in the quick tier; first, middle and last bit elsewhere.
-func (f *fixture) mutants(base *pb.InternalBlock, s BaseSpec, tier core.Tier) []*mutant {
-	w := &walker{unclassified: map[string]bool{}}
+//
+// seam "" lists the mutants judged at Ledger.VerifyBlock and single's
+// CheckMinerMatch; seam "pow" those judged at the PoW CheckMinerMatch (base
+// blocks really mined): the same edits plus their re-mined variants, without the
+// MerkleTree treatments (the consensus seam does not look at the body).
+func (f *fixture) mutants(base *pb.InternalBlock, s BaseSpec, tier core.Tier, seam string) []*mutant {
+	w := &walker{unclassified: map[string]bool{}, pow: seam == seamPow}
 	w.dense = tier == core.Thorough && s.N == 1
 	w.denseSig = tier == core.Thorough || (s.Justify < 0 && s.Failed == 0)
 	w.walkStruct(reflect.ValueOf(base).Elem(), func(b *pb.InternalBlock) reflect.Value { return reflect.ValueOf(b).Elem() }, "")
@@ -571,6 +746,9 @@ func (f *fixture) mutants(base *pb.InternalBlock, s BaseSpec, tier core.Tier) []
 	w.shifts(base)
 	w.body(base, f.foreign)
 	w.signer(base)
+	if !w.pow {
+		w.trees(base) // after everything else: the older mutants keep their place in the order (duplicates are told in order)
+	}
 	if len(w.unclassified) > 0 {
 		ks := []string{}
 		for k := range w.unclassified {
